@@ -9,7 +9,7 @@ from concurrent.futures import ThreadPoolExecutor
 ALL = ['C%02d' % i for i in range(1, 21)]
 diffs = []
 for d in sys.argv[1:]:
-    diffs += sorted(glob.glob(os.path.join(d, '*.diff'))) if os.path.isdir(d) else [d]
+    diffs += sorted(glob.glob(os.path.join(d, '*.diff'))) if os.path.isdir(d) else ([d] if d.endswith('.diff') else [])
 
 
 def one(diff):
